@@ -384,6 +384,7 @@ def run(ctx):
     ctx.rule('C07.SUBSCRIBE', lambda: rule_subscribe(ctx), 3)
     ctx.rule('C07.STATUS', lambda: rule_status(ctx), 2)
     ctx.rule('C07.CLAMP', lambda: rule_hsub_clamp(ctx), 1)
+    ctx.rule('C07.NOTIFYTIMEOUT', lambda: rule_notify_timeout(ctx), 1)
     # the status a subscriber converges on is computed from the mempool view: its exactness rules are necessary here too
     from . import c08 as _c08
     _c08.run(ctx)
@@ -413,4 +414,36 @@ def rule_hsub_clamp(ctx, rule='C07.CLAMP'):
               why + ': when a reorganisation lowered the index after the notification was decided, raw_header raises inside the '
               'notifier and the exception escapes into the task that reported (the mempool refresh / block processing)',
               loc=ctx.loc(rf, rf.node))
+    return 1
+
+
+def rule_notify_timeout(ctx, rule='C07.NOTIFYTIMEOUT'):
+    '''A session whose notification round does not finish within the limit is CLOSED (the client reconnects and
+    re-subscribes, getting current statuses).  That relies on the limiter raising TaskTimeout: aiorpcX's timeout_after /
+    timeout_at raise it, ignore_after / ignore_at swallow the expiry - the round would be abandoned silently and the
+    session kept, holding statuses it is never told about again.'''
+    f = ctx.func('sess', 'ElectrumX.notify')
+    RAISING = {'timeout_after', 'timeout_at'}
+    withs = [w for w in f.own_nodes() if isinstance(w, ast.AsyncWith)]
+    inner = ctx.func('sess', 'ElectrumX._notify_inner')
+    ok, why = False, 'no time-limited block around _notify_inner'
+    for w in withs:
+        if not any(q.in_body(c, w.body) for c in q.calls_resolving_to(ctx, f, inner)):
+            continue
+        names = [norm(i.context_expr.func).split('.')[-1] for i in w.items if isinstance(i.context_expr, ast.Call)]
+        tries = [t for t, _fld in q.enclosing_chain(w, f.node) if isinstance(t, ast.Try)]
+        handled = False
+        closes = False
+        for t in tries:
+            for h in t.handlers:
+                hn = [norm(x).split('.')[-1] for x in (h.type.elts if isinstance(h.type, ast.Tuple) else [h.type])] if h.type else []
+                if 'TaskTimeout' in hn:
+                    handled = True
+                    closes = any(isinstance(c, ast.Call) and q.callee_name(ctx, f, c) in ('self.close', 'self.abort') for c in walk_own(h))
+        ok = bool(set(names) & RAISING) and handled and closes
+        why = f'the round is limited by `{", ".join(names)}`; TaskTimeout handled={handled}, session closed there={closes}'
+    ctx.check(ok, rule, ctx.key(f, None, 'expired round closes the session'),
+              'the notification round is limited by a raising limiter and TaskTimeout closes the session',
+              why + ': a round that expires is dropped without closing the session, which keeps its old statuses and is never told again',
+              loc=ctx.loc(f, f.node))
     return 1
